@@ -533,6 +533,29 @@ def discharge_partial(an, prog, b, blk, t, c, cls, why):
         v = peel(an.op(b, t["args"][-1]))
         ok = v[0] == "field" and v[1][0] == "downcast" and v[1][2] in ("U24", "I24")
         return ok, ("ranged constructor: argument is the payload of DataNumber::%s (R1.6)" % v[1][2]) if ok else ("%s on a value that is not a U24/I24 payload: %s" % (c.npath, canon(v)[:160]))
+    if cls == "index" and c.npath.endswith("::copy_from_slice") and len(t["args"]) == 2:
+        # lengths must be equal: destination is a `[T; N]` (through the unsize coercion), source is the output of
+        # nom `take(N)` with the same constant N (which yields exactly N bytes or fails)
+        d = an.op(b, t["args"][0])
+        while d[0] in ("ref", "deref"):
+            d = d[1]
+        dn = None
+        if d[0] == "cast" and len(d) > 4 and d[4]:
+            m = re.search(r"\[[\w:]+; (\d+)\]$", d[4].strip())
+            dn = int(m.group(1)) if m else None
+        sx = peel(an.op(b, t["args"][1]))
+        sn = None
+        if sx[0] == "tfield" and sx[2] == 1 and sx[1][0] == "ok":
+            call = peel(sx[1][1])
+            if call[0] == "call" and call[3]:
+                inner = peel(call[3][0])
+                if inner[0] == "call" and inner[2] is not None and inner[2].npath in ("nom::bytes::complete::take", "nom::bytes::streaming::take") and inner[3]:
+                    cv = const_eval(peel(inner[3][0], widen=True))
+                    if cv is not None and len(cv) == 1:
+                        sn = next(iter(cv))
+        if dn is not None and dn == sn:
+            return True, "equal lengths: destination is a [_; %d] array, source is the %d bytes produced by take(%d)" % (dn, sn, sn)
+        return False, "copy_from_slice with lengths not shown equal (destination %s, source %s): %s" % (dn, sn, why)
     if cls == "index":
         idx = [str(a) for a in (c.args or []) + (c.syn_args or [])]
         if any(a.strip() == "std::ops::RangeFull" for a in idx):
